@@ -193,6 +193,7 @@ func (c *StringScanner) Unread() {
 //	Parameters:
 //		- count A number of characters to be unread
 func (c *StringScanner) UnreadMany(count int) {
+	defer c.verifEnter("unreadmany", count)()
 	for count > 0 {
 		c.Unread()
 		count--
